@@ -10,7 +10,7 @@ from vlib.harness import drive, Violation
 from checks.c01 import case_strategy, BUNDLES
 
 PROPERTY = "C04"
-RULE = ("drawn three-round runs (country and world scale, all option families, horizons 48..120) with a unique title per run; for every "
+RULE = ("drawn three-round runs (country and world scale, all option families, horizons 48..120) with a unique title per run (every other one 140 characters long); for every "
         "round the returned Interpreter, the LP variable values captured after the last solve and the <title>_roundN_ykcals.csv written to "
         "disk are compared: headline = min over months of the summed per-food series; each per-food series = captured allocation converted "
         "to kcals per person per day by an independent formula; headline not more than 0.01 % below the first-stage optimum (human rounds); "
@@ -132,7 +132,7 @@ def run_case(ctx, iso3, options, title):
         ctx.abort("%s@%s" % (r["exc_type"], r["exc_frame"]))
         return
     cap = r["cap"]
-    case = dict(kind="run", iso3=iso3, options=options)
+    case = dict(kind="run", iso3=iso3, options=options, title=title)
     if len(cap.opt) != len(cap.interp):
         ctx.fail("rounds-and-results-do-not-pair-up", "%d LPs, %d interpreted results" % (len(cap.opt), len(cap.interp)), case)
     for k, (lp, (t, interp)) in enumerate(zip(cap.opt, cap.interp)):
@@ -150,7 +150,13 @@ def shard(ctx):
 
     def body(case):
         iso3, options = case
-        run_case(ctx, iso3, options, "c04 s%d n%d" % (ctx.shard, ctx.evaluations))
+        # the title is the caller's free text and names the files: every other run carries a long one (the shipped files stop at 60
+        # characters; nothing documents a limit)
+        title = "c04 s%d n%d" % (ctx.shard, ctx.evaluations)
+        if ctx.evaluations % 2:
+            title += " " + "a long descriptive title as a user of the web interface might type it " * 2
+            ctx.event("long_title")
+        run_case(ctx, iso3, options, title.strip()[:140])
     drive(ctx, case_strategy(), body, 110 if thorough else 20, shrink=False, tag="runs", count=False)
     model.run_fixed(ctx, model.extreme_cases_wide(rotate=True), lambda iso, o, k: run_case(ctx, iso, o, "c04x %s" % iso))
     if thorough:
@@ -166,4 +172,4 @@ def shard(ctx):
 
 def replay(case, ctx):
     ctx.count()
-    run_case(ctx, case["iso3"], case["options"], "c04 replay")
+    run_case(ctx, case["iso3"], case["options"], case.get("title", "c04 replay"))
